@@ -65,8 +65,9 @@ def xrun (c : Conn) : List XOp → Conn
   | [] => c
   | op :: ops => xrun (xstep c op).1 ops
 
-def connReply (kind : Kind) (wl : Bool) (ops : List XOp) (sends : List SResp) (recvs : List RResp) : Sexp :=
-  let c0 := init kind wl sends recvs
+def connReply (kind : Kind) (wl : Bool) (ops : List XOp) (sends : List SResp) (recvs : List RResp)
+    (txed : Bool := true) (rxed : Bool := true) : Sexp :=
+  let c0 := init kind wl sends recvs txed rxed
   let c := xrun c0 ops
   let w (b : Bytes) : Sexp := if wl then ofBytes b else sym "-"
   .list [.list (connSteps c0 ops),
@@ -91,6 +92,8 @@ def sop? : Sexp → Option SOp
   | .list [.atom "close"] => some .close
   | .list [.atom "reopen"] => some .reopen
   | .list [.atom "reopenf", _, _] => some .reopenf
+  | .list [.atom "afault", c] => (nat? c).map .afault
+  | .list [.atom "svce"] => some .svce
   | .list [.atom "rxix", ca] => (nat? ca).map .rxix
   | .list [.atom "closeix", ca] => (nat? ca).map .closeix
   | .list [.atom "closeall"] => some .closeall
@@ -115,7 +118,8 @@ def remSW (wh : String) (r : Rem) : Nat × Sexp :=
 def snapshotW (s : Server) : Sexp :=
   let ls := s.curListen.toList.map (fun i => (i, Sexp.list [sym "listen", ofBool false])) ++
             s.deadListens.map (fun i => (i, Sexp.list [sym "listen", ofBool true]))
-  let rs := s.ixes.map (fun kv => remSW "ix" kv.2) ++ s.cxes.map (fun kv => remSW "cx" kv.2) ++ s.gone.map (remSW "gone")
+  let rs := s.ixes.map (fun kv => remSW "ix" kv.2) ++ s.cxes.map (fun kv => remSW "cx" kv.2) ++ s.gone.map (remSW "gone") ++
+            s.axes.map (fun sp => remSW "gone" (stub s.tls sp.1 sp.2 true))
   .list (((ls ++ rs).foldr insertBySid []).map (·.2))
 
 def serverStepsW (s : Server) : List SOp → List Sexp
@@ -127,7 +131,8 @@ def serverStepsW (s : Server) : List SOp → List Sexp
 def snapshot (s : Server) : Sexp :=
   let ls := s.curListen.toList.map (fun i => (i, Sexp.list [sym "listen", ofBool false])) ++
             s.deadListens.map (fun i => (i, Sexp.list [sym "listen", ofBool true]))
-  let rs := s.ixes.map (fun kv => remS "ix" kv.2) ++ s.cxes.map (fun kv => remS "cx" kv.2) ++ s.gone.map (remS "gone")
+  let rs := s.ixes.map (fun kv => remS "ix" kv.2) ++ s.cxes.map (fun kv => remS "cx" kv.2) ++ s.gone.map (remS "gone") ++
+            s.axes.map (fun sp => remS "gone" (stub s.tls sp.1 sp.2 true))
   .list (((ls ++ rs).foldr insertBySid []).map (·.2))
 
 def serverSteps (s : Server) : List SOp → List Sexp
@@ -181,6 +186,8 @@ def sev? : Sexp → Option Idle.SEv
   | .list [.atom "data", ca, _] => (nat? ca).map .data
   | .list [.atom "req", ca] => (nat? ca).map .req
   | .list [.atom "req10", ca] => (nat? ca).map .req10
+  | .list [.atom "reqx", ca] => (nat? ca).map .reqx
+  | .list [.atom "reqh", ca, f, c] => do some (.reqh (← nat? ca) (← bool? f) (← bool? c))
   | .list [.atom "cap", ca, k] => do some (.cap (← nat? ca) (← nat? k))
   | .list [.atom "wind", t] => (nat? t).map .wind
   | .list [.atom "settmo", t] => (nat? t).map .settmo
@@ -201,6 +208,10 @@ def idleSteps (order : List Nat) (s : Idle.Srv) : List Idle.SEv → List Sexp
     .list [sym "ok", idleSnap order' s'] :: idleSteps order' s' es
 
 def handle : Sexp → Sexp
+  | .list [.atom "connf", k, wl, txed, rxed, .list ops, .list sends, .list recvs] =>
+    match kind? k, bool? wl, bool? txed, bool? rxed, ops.mapM xop?, sends.mapM sresp?, recvs.mapM rresp? with
+    | some k, some wl, some t, some r, some ops, some sends, some recvs => connReply k wl ops sends recvs t r
+    | _, _, _, _, _, _, _ => sym "bad-request"
   | .list [.atom "conn", k, wl, .list ops, .list sends, .list recvs] =>
     match kind? k, bool? wl, ops.mapM xop?, sends.mapM sresp?, recvs.mapM rresp? with
     | some k, some wl, some ops, some sends, some recvs => connReply k wl ops sends recvs
@@ -214,14 +225,20 @@ def handle : Sexp → Sexp
     match nat? t, nat? resp, ops.mapM sev? with
     | some t, some resp, some ops => .list (idleSteps [] { tymeout := t, resp := resp } ops)
     | _, _, _ => sym "bad-request"
+  | .list [.atom "site", .atom "client_connect", code] =>
+    match nat? code with
+    | some c => .list [sym "outcome", sym (match connectLookup c with
+        | .connected => "connected" | .retry => "retry" | .reopen => "reopen"
+        | .raisedOS => "raisedOS" | .raisedOther => "raisedOther")]
+    | none => sym "bad-request"
   | .list [.atom "site", .atom site, code] =>
     match (nat? code).bind (siteOutcome site) with
     | some o => .list [sym "outcome", outcomeS o]
     | none => sym "bad-request"
-  | .list [.atom "serverw", tls, isOpen, .list ops] =>
-    match bool? tls, bool? isOpen, ops.mapM sop? with
-    | some tls, some o, some ops => .list [sym "ok", .list (serverStepsW (Server.startW tls o) ops)]
-    | _, _, _ => sym "bad-request"
+  | .list [.atom "serverw", tls, isOpen, txed, rxed, .list ops] =>
+    match bool? tls, bool? isOpen, bool? txed, bool? rxed, ops.mapM sop? with
+    | some tls, some o, some t, some r, some ops => .list [sym "ok", .list (serverStepsW (Server.startW tls o t r) ops)]
+    | _, _, _, _, _ => sym "bad-request"
   | .list [.atom "server", tls, .list ops] =>
     match bool? tls, ops.mapM sop? with
     | some tls, some ops => .list [sym "ok", .list (serverSteps (Server.start tls) ops)]
